@@ -944,6 +944,20 @@ func readAllWith(kind string, file, payload []byte, zero bool) ([]cid.Cid, []blo
 			return nil, st.order, err
 		}
 		return h.Roots, st.order, nil
+	case "root.LoadCar(batch)": // a store with PutMany takes the loader's batching path
+		st := &batchOrderStore{}
+		h, err := carv1root.LoadCar(bg, st, bytes.NewReader(payload))
+		if err != nil {
+			return nil, st.order, err
+		}
+		return h.Roots, st.order, nil
+	case "internal.LoadCar(batch)":
+		st := &batchOrderStore{}
+		roots, err := verifexport.LoadCar(st, bytes.NewReader(payload))
+		if err != nil {
+			return nil, st.order, err
+		}
+		return roots, st.order, nil
 	case "internal.CarReader":
 		vr, roots, err := verifexport.NewV1Reader(bytes.NewReader(payload), zero, carv2.DefaultMaxAllowedHeaderSize, carv2.DefaultMaxAllowedSectionSize)
 		if err != nil {
@@ -970,17 +984,17 @@ func readAllWith(kind string, file, payload []byte, zero bool) ([]cid.Cid, []blo
 	return nil, nil, fmt.Errorf("unknown reader kind %s", kind)
 }
 
-var seqReaderKinds = []string{"v2.BlockReader", "v2.BlockReader(plain io.Reader)", "root.CarReader", "root.LoadCar", "internal.CarReader", "internal.LoadCar"}
+var seqReaderKinds = []string{"v2.BlockReader", "v2.BlockReader(plain io.Reader)", "root.CarReader", "root.LoadCar", "root.LoadCar(batch)", "internal.CarReader", "internal.LoadCar", "internal.LoadCar(batch)"}
 
 func runScanCase(x *acCtx, c *acCase) {
 	file := c.A.build()
 	payload := c.A.payload()
 	zero := c.A.Npad > 0
 	for _, kind := range seqReaderKinds {
-		if zero && (strings.HasPrefix(kind, "root.") || kind == "internal.LoadCar") {
+		if zero && (strings.HasPrefix(kind, "root.") || strings.HasPrefix(kind, "internal.LoadCar")) {
 			continue // no zero-length option there
 		}
-		emptyRootsRefused := len(c.A.Roots) == 0 && (kind == "root.LoadCar" || strings.HasPrefix(kind, "internal."))
+		emptyRootsRefused := len(c.A.Roots) == 0 && (strings.HasPrefix(kind, "root.LoadCar") || strings.HasPrefix(kind, "internal."))
 		roots, blks, err := readAllWith(kind, file, payload, zero)
 		x.rep.eval(canon(c.A)+kind, len(c.Scan) > 1)
 		if emptyRootsRefused {
@@ -1059,6 +1073,15 @@ func runScanCase(x *acCtx, c *acCase) {
 type orderStore struct{ order []blocks.Block }
 
 func (o *orderStore) Put(_ ctxT, b blocks.Block) error { o.order = append(o.order, b); return nil }
+
+// batchOrderStore also offers PutMany: the loaders hand it the blocks in batches; the blocks are kept as given
+type batchOrderStore struct{ order []blocks.Block }
+
+func (o *batchOrderStore) Put(_ ctxT, b blocks.Block) error { o.order = append(o.order, b); return nil }
+func (o *batchOrderStore) PutMany(_ ctxT, bs []blocks.Block) error {
+	o.order = append(o.order, bs...)
+	return nil
+}
 
 type orderStoreNoCtx struct{ order []blocks.Block }
 
